@@ -151,6 +151,39 @@ theorem C02_not_deaf (h : Frame → Bool) (tr : Bool) (chunks : List Bytes) (g w
       rw [extent_none_of_head _ 0 _ hd (by decide)] at he
       cases he
 
+/-- never deaf **in every link state**: the same from any state of the sequence numbers, with or without a transport, with
+    or without a sender waiting for its acknowledgement (the three situations the property names: before the first
+    transmission, while an acknowledgement is awaited, after close) -/
+theorem C02_not_deaf_any_state (h : Frame → Bool) (st : RxState) (hb : st.buf = []) (chunks : List Bytes) (g w : Bytes)
+    (k : Nat) (f : Frame) (n : Nat)
+    (p : HLPacket) (hk : 65537 ≤ k) (hs : chunks.flatten = g ++ List.replicate k 0 ++ w)
+    (hok : tryFrame w = .ok f n) (hd : isAck f = false) (hp : f.hl = some p) :
+    f ∈ deliveredOf (session h st chunks).2 := by
+  apply C01_complete_prompt_any_state h st hb chunks (g.length + k) n f p
+  · rw [hs]
+    have : (g ++ List.replicate k 0 ++ w).drop (g.length + k) = w := by
+      rw [List.append_assoc, ← List.drop_drop, List.drop_left]
+      simp
+    rw [this]; exact hok
+  · exact hd
+  · exact hp
+  · intro j hj e he
+    rw [hs] at he
+    rcases Nat.lt_or_ge j g.length with hlt | hge
+    · have := extent_le _ e he
+      omega
+    · exfalso
+      have hd : (g ++ List.replicate k 0 ++ w).drop j = (0 : UInt8) :: (List.replicate (k - (j - g.length) - 1) 0 ++ w) := by
+        rw [List.append_assoc]
+        have : j = g.length + (j - g.length) := by omega
+        rw [this, ← List.drop_drop, List.drop_left, List.drop_append_of_le_length (by simp; omega)]
+        rw [List.drop_replicate]
+        have : k - (j - g.length) = (k - (g.length + (j - g.length) - g.length) - 1) + 1 := by omega
+        rw [this, List.replicate_succ]
+        simp
+      rw [extent_none_of_head _ 0 _ hd (by decide)] at he
+      cases he
+
 /-- the premises are satisfiable: a command frame after garbage and a quiet gap -/
 example : (match tryFrame (Frame.stamp 0 (Frame.mkData 0xC0 ⟨some 0x20000#32, [1]⟩ 12)).serialize with
     | .ok f n => n == 14 && !isAck f && f.hl.isSome
